@@ -22,3 +22,13 @@ def body(rec, c):
 
 CHECKS = [Check("history", body, lambda: {"c": config_case(**KW)}, quick=7, thorough=80, quick_shards=16,
                 thorough_shards=16, shrink_quick=False)]
+
+from . import C11_occupancy  # noqa: E402  (direct part: the bookkeeping driven leg by leg)
+CHECKS = CHECKS + C11_occupancy.CHECKS
+RULE += (" Sub-check occupancy_legs (no run): generated populations (up to 40 units, several per cell, caps 1/2/3/"
+         "unbounded, signed and zero charges behind a charge filter, point masses or whole objects in cells) in a real "
+         "state handler; 3-14 legs that move the active unit inside its cell, carry it across a wall up or down (also "
+         "the periodic wall, landing exactly on the neighbour's limit) or hand the activity to an occupant or surplus "
+         "unit of the same cell, to a unit elsewhere or to a filtered-out unit; after each leg update() is called and "
+         "occupant lists, the private surplus lists (per cell) and the active record are compared with the positions. "
+         "Non-trivial: a sequence with a switch, a crossing and a surplus list.")
